@@ -15,6 +15,14 @@
 //! tower = fp | fp2:<nonresidue> | fp3:<nonresidue>;  <test>, <clear> name the override of the configuration
 //! (`def` = trait default), the `k=v` tokens carry the PUBLIC constants the override reads.
 //! `h_eff` = the integer by which `clear_cofactor` is documented to multiply (COFACTOR for the default).
+//!
+//! Inputs per configuration: points of the whole curve from small / largest / random coordinates
+//! (`get_point_from_x_unchecked`, `get_point_from_y_unchecked`), small-order points (`r·W`, points of prime
+//! order ℓ | h, `G + T`), subgroup points (O, G, random multiples), and `rand` samples.  The number of lines
+//! per configuration is budgeted by the cost of the driver's reference arithmetic (the 753/782-bit curves get
+//! the minimal plan W, r·W, G in the quick tier).  Five toy curves with cofactor 4, 6, 8 over F_101 … F_127
+//! (ids `toy.*`) are enumerated exhaustively: every point of the curve, the whole subgroup.
+//! Command line: `c12 [quick|thorough] [seed] [substring of the ids to run]`.
 #![allow(clippy::type_complexity)]
 
 use ark_ec::{
@@ -325,7 +333,7 @@ where
         (1, 1, 1)
     } else {
         let pts = (lines - 2) * 10 / 23;
-        ((pts * 40 / 100).max(2), (pts * 25 / 100).max(1), (pts * 35 / 100).max(2))
+        ((pts * 45 / 100).max(2), (pts * 25 / 100).max(1), (pts * 30 / 100).max(2))
     };
     let n_samples = if minimal { 1 } else if exhaustive { 16 } else if ctx.thorough { 2 * (lines / 20).max(2) } else { 2 };
 
